@@ -29,7 +29,7 @@ Suppressions:
 """
 
 import ast
-from pathlib import Path
+from pathlib import Path, PurePosixPath
 
 from src.core.base import BaseLintContext, MultiLanguageLintRule
 from src.core.linter_utils import load_linter_config, path_in_project
@@ -363,10 +363,15 @@ class PrintStatementRule(MultiLanguageLintRule):  # thailint: ignore[srp]
         Returns:
             True if test file
         """
-        path_str = str(file_path)
-        return any(
-            pattern in path_str
-            for pattern in [".test.", ".spec.", "test_", "_test.", "/tests/", "/test/"]
+        name = PurePosixPath(str(file_path).replace("\\", "/")).name
+        parts = PurePosixPath(str(file_path).replace("\\", "/")).parts[:-1]
+        return (
+            ".test." in name
+            or ".spec." in name
+            or name.startswith("test_")
+            or "_test." in name
+            or "tests" in parts
+            or "test" in parts
         )
 
     def _should_ignore_typescript(self, violation: Violation, context: BaseLintContext) -> bool:
